@@ -30,10 +30,12 @@ def one_block(chk, rng, kind, idx):
     items, mitems = [], []
     for j, lab in enumerate(labels):
         salt = rng.randrange(2)
-        it = api.make_item(kind, lab, nfr, salt)
-        cid = content.setdefault((lab, salt), len(content) + 1)
+        # events carry their own number of values (possibly none: such an event is falsy in Python)
+        ni = nfr if kind != "EV" else rng.choice([0, 0, 1, 3])
+        it = api.make_item(kind, lab, ni, salt)
+        cid = content.setdefault((lab, salt, ni), len(content) + 1)
         items.append(it)
-        mitems.append([0, cid, cps(lab), nfr])
+        mitems.append([0, cid, cps(lab), ni])
     b = api.make_block(kind, nfr)
     api.install(kind, b, items)
     before_ids = [id(x) for x in api.items_of(kind, b)]
@@ -45,8 +47,8 @@ def one_block(chk, rng, kind, idx):
         j = rng.randrange(n)
         item_keys.append((mitems[j], items[j], "present"))
         lab = labels[j]
-        salt = next(s for (l, s) in content if l == lab and content[(l, s)] == mitems[j][1])
-        item_keys.append((mitems[j], api.make_item(kind, lab, nfr, salt), "equal copy"))
+        salt, ni = next((s, k) for (l, s, k) in content if l == lab and content[(l, s, k)] == mitems[j][1])
+        item_keys.append((mitems[j], api.make_item(kind, lab, ni, salt), "equal copy"))
     item_keys.append(([0, 999, cps("nobody"), nfr], api.make_item(kind, "nobody", nfr, 7), "absent"))
     other_kind = "EV" if kind != "EV" else "EM"
     foreign = api.make_item(other_kind, "c7", nfr)
@@ -144,7 +146,7 @@ def run(chk):
     n = 600 if chk.tier == "quick" else 6000
     for i in range(n):
         one_block(chk, rng, KINDS[i % 4], i)
-        if len(chk.violations) >= 3:
+        if chk.n_found() >= 3:
             break
 
 
